@@ -73,7 +73,8 @@ def run(prog, tier, seed):
                               T(c13.rule_g0, prog, adj))
     G = T(c09.grammars, prog)
     res = res + T.results(
-        T(c12.rule_scc, prog), T(c12.rule_scc6, prog), T(c05.rule_rw3, prog),
+        T(c12.rule_scc, prog), T(c12.rule_scc6, prog),
+        T(c12.rule_scc9, prog), T(c05.rule_rw3, prog),
         T(c10.rule_gr4, prog, G) if G is not None else None)
     results = adopt(res, PROP, 'law of C04 it is necessary for: see '
                     'pmcv/rules/c04.py')
